@@ -11,6 +11,15 @@ func init() {
 		pk := c.P.ByPath[goSMTPPkg]
 		fmt.Println("go-smtp syntax files:", len(pk.Syntax), "types:", pk.Types != nil, "info:", pk.TypesInfo != nil)
 	})
+	// ANCHORS regenerates the rename index (checker/anchors_index.json) from the tree being analysed
+	register("ANCHORS", func(c *Check) {
+		path := os.Getenv("VERIF_ANCHORS_OUT")
+		if path == "" {
+			path = "/verif/checker/anchors_index.json"
+		}
+		n, err := writeAnchorsIndex(c.P, path)
+		fmt.Println("anchors index:", n, "functions written to", path, err)
+	})
 	register("DUMP", func(c *Check) {
 		var rel, recv, name string
 		fmt.Sscanf(os.Getenv("VERIF_DUMP"), "%s %s %s", &rel, &recv, &name)
